@@ -226,7 +226,7 @@ def run(ctx):
         for lo in range(0, len(strings), 200000):
             chunk = strings[lo:lo + 200000]
             if n <= tmax:
-                run_batch(chunk, schema if n <= 5 else None, n <= 5)
+                run_batch(chunk, schema, n <= 5)     # HedString needs a schema for any tag; validation only up to length 5
             else:
                 ans = ctx.model.batch([{"op": "c02.tok", "text": s} for s in chunk])
                 for s, a in zip(chunk, ans):
